@@ -17,7 +17,8 @@ import Driver.Util
 open Pyro.Server Pyro.ServerLoop Driver
 
 def parseBody : List String → Option (Body × List String)
-  | "U" :: r => some (.undecodable, r)
+  | "U" :: r => some (.undecodable false, r)
+  | "US" :: r => some (.undecodable true, r)
   | "H" :: wf :: ok :: v :: r =>
     let val := if v == "a" then Validator.accept else if v == "r" then Validator.raises else Validator.unserialisableReply
     some (.handshake (wf == "1") (ok == "1") val, r)
